@@ -141,6 +141,54 @@ theorem addFs_inv_keeps (op : LOp) : ∀ (tss : List (List Nat)) {w : Local}, LI
       exact ⟨i2, hk.trans' k2⟩
     | err => exact ⟨hi, hk⟩
 
+theorem addF_nodes_mono (c : Cfg) (w : Local) (ts : List Nat) (u : Bool) (d : Option (List Nat)) :
+    ∀ n ∈ w.o.nodes, n ∈ (addF c w ts u d).1.o.nodes := by
+  intro n hn
+  rcases addF_cases c w ts u d with e | ⟨e, _⟩ <;> rw [e]
+  · exact hn
+  · exact mem_insertNew.2 (Or.inl hn)
+
+theorem addFs_nodes_mono (c : Cfg) : ∀ (tss : List (List Nat)) (w : Local),
+    ∀ n ∈ w.o.nodes, n ∈ (addFs c w tss).1.o.nodes := by
+  intro tss
+  induction tss with
+  | nil => intro w n hn; exact hn
+  | cons ts rest ih =>
+    intro w n hn
+    unfold addFs
+    have h1 := addF_nodes_mono c w ts true none n hn
+    rcases hs : addF c w ts true none with ⟨w', st⟩
+    rw [hs] at h1
+    cases st with
+    | ok => exact ih w' n h1
+    | err => exact h1
+
+/-- `add_f_nodes_from` that returns has created, for every given set, an F-node whose name was not
+a node, registered with that set -/
+theorem addFs_creates : ∀ (tss : List (List Nat)) {w : Local}, LInv w → (addFs Cfg.fixed w tss).2 = .ok →
+    ∀ ts ∈ tss, ∃ k, Node.f k ∉ w.o.nodes ∧ Node.f k ∈ (addFs Cfg.fixed w tss).1.o.nodes ∧
+      (k, (⟨ts, [1]⟩ : FEntry)) ∈ (addFs Cfg.fixed w tss).1.r.fs := by
+  intro tss
+  induction tss with
+  | nil => intro w _ _ ts hts; cases hts
+  | cons t0 rest ih =>
+    intro w h hok ts hts
+    unfold addFs at hok ⊢
+    rcases addF_cases Cfg.fixed w t0 true none with e | ⟨e, _⟩
+    · rw [e] at hok; cases hok
+    · rw [e] at hok ⊢
+      have h1 : LInv (addFok Cfg.fixed w t0 none) := addFok_inv h t0 none
+      simp only at hok ⊢
+      rcases List.mem_cons.1 hts with rfl | hin
+      · refine ⟨nameF Cfg.fixed w, nameF_fresh w, ?_, ?_⟩
+        · apply addFs_nodes_mono
+          exact mem_insertNew.2 (Or.inr rfl)
+        · have hk := (addFs_inv_keeps (.addFs rest) rest h1).2
+          apply hk.1 _ _ (by simp)
+          simp [addFok, mem_dSet_new (nameF_not_key h)]
+      · obtain ⟨k, k1, k2, k3⟩ := ih h1 hok ts hin
+        exact ⟨k, fun hm => k1 (mem_insertNew.2 (Or.inl hm)), k2, k3⟩
+
 /-! ### add_s_node -/
 
 theorem addSok_inv {w : Local} (h : LInv w) (d : Nat × Nat) (chg : List Nat) :
